@@ -23,7 +23,7 @@ type c20Case struct {
 func init() {
 	engine.Register(&engine.Check{
 		ID: "C20", Level: "exploration",
-		Rule: "every sequence of 0..5 (quick) / 0..6 (thorough) points on the 3x3 grid and 0..4 / 0..5 on the 4x4 grid; every sequence of length <=9 / <=11 over a 3-point alphabet (deep stacks, repeated points, zero-length chords, closed loops); straight and zig-zag runs of 50/100/200 points with every single point displaced; x thresholds {0, 1/4, 1/2, 1/sqrt2, 1, sqrt2, 2, 10} x stride 2..5 with NaN extras. Oracle: indexes strictly increasing incl. first and last (all indexes for <3 points); for each omitted point the exact rational squared distance to the segment between its nearest retained neighbours is <= t^2(1+2^-40) (exactly 0 for t = 0); simplifying the selected points again returns all of them. distinct_nontrivial = distinct (sequence, threshold) with >= 3 points",
+		Rule: "every sequence of 0..5 (quick) / 0..6 (thorough) points on the 3x3 grid and 0..4 / 0..5 on the 4x4 grid; every sequence of length <=9 / <=11 over a 3-point alphabet (deep stacks, repeated points, zero-length chords, closed loops); straight and zig-zag runs of 50/100/200 points with every single point displaced; damped zig-zags and inward spirals of 20..200 points (deep interval stacks); straight runs with displacements of 2^-21..2^-40 against thresholds around them; x thresholds {0, 1/4, 1/2, 1/sqrt2, 1, sqrt2, 2, 10} x stride 2..5 with NaN extras. Oracle: indexes strictly increasing incl. first and last (all indexes for <3 points); for each omitted point the exact rational squared distance to the segment between its nearest retained neighbours is <= t^2(1+2^-40) (exactly 0 for t = 0); simplifying the selected points again returns all of them. distinct_nontrivial = distinct (sequence, threshold) with >= 3 points",
 		Run:    c20Run,
 		Replay: func(c *engine.Ctx, kind string, raw json.RawMessage) { c20Exec(c, decodeCase[c20Case](raw)) },
 		Assumptions: []string{"integer-grid inputs (exact distances); thresholds >= 0"},
@@ -191,6 +191,50 @@ func c20Run(c *engine.Ctx) {
 					}
 				}
 			})
+		}
+	}
+	// deep interval stacks: damped zig-zags and inward spirals keep one interval pending per point
+	for _, n := range []int{20, 40, 60, 100, 200} {
+		for _, damp := range []float64{0.96875, 0.875, 0.75} {
+			zig := make([]ref.F, 0, 2*n)
+			spiral := make([]ref.F, 0, 2*n)
+			amp := math.Ldexp(1, 40)
+			for i := 0; i < n; i++ {
+				y := amp
+				if i%2 == 1 {
+					y = -amp
+				}
+				zig = append(zig, ref.F(i), ref.F(y))
+				ang := float64(i) * 2.4
+				spiral = append(spiral, ref.F(math.Round(amp*math.Cos(ang))), ref.F(math.Round(amp*math.Sin(ang))))
+				amp = math.Round(amp * damp)
+			}
+			for ti, t := range []float64{0, 0.5, 1, 1000} {
+				c.Count("deep_stack_cases", 2)
+				c20Exec(c, c20Case{Pts: zig, Threshold: ref.F(t), Stride: 2 + ti%4})
+				c20Exec(c, c20Case{Pts: spiral, Threshold: ref.F(t), Stride: 2 + (ti+1)%4})
+			}
+		}
+	}
+	// thresholds against tiny deviations: a straight run with one point displaced by delta; the
+	// point may only be dropped when it is exactly within the threshold
+	for _, delta := range []float64{math.Ldexp(1, -21), math.Ldexp(1, -26), math.Ldexp(1, -30), math.Ldexp(1, -40), 1e-7, 1e-13} {
+		for k := 1; k < 6; k++ {
+			pts := make([]ref.F, 0, 14)
+			for i := 0; i < 7; i++ {
+				y := 0.0
+				if i == k {
+					y = delta
+				}
+				if i == (k+2)%7 && i != 0 && i != 6 {
+					y = -delta / 2
+				}
+				pts = append(pts, ref.F(float64(i)*0.5+0.25), ref.F(y))
+			}
+			for _, t := range []float64{0, delta / 4, delta / 2, delta * 0.999999, delta, delta * 1.000001, delta * 2} {
+				c.Count("tiny_deviation_cases", 1)
+				c20Exec(c, c20Case{Pts: pts, Threshold: ref.F(t), Stride: 2 + k%4})
+			}
 		}
 	}
 	if c.Get("dropped_some") == 0 || c.Get("kept_all") == 0 {
